@@ -14,6 +14,8 @@ import (
 	"os/exec"
 	"path/filepath"
 	"runtime"
+	"runtime/debug"
+	"runtime/pprof"
 	"sort"
 	"strconv"
 	"strings"
@@ -754,6 +756,19 @@ func workerMain(args []string) int {
 	p, ok := registry[args[0]]
 	if !ok {
 		return 3
+	}
+	// soft memory limit per worker: restore loops allocate megabytes per iteration, and on one P the
+	// concurrent collector's "live heap" includes everything allocated during the cycle, so the heap goal
+	// doubles cycle after cycle (16 workers of 10-30 GB were OOM-killed in a thorough dry run of C13)
+	debug.SetMemoryLimit(2500 << 20)
+	if f := os.Getenv("VERIF_HEAPPROF"); f != "" { // development aid: heap profile after 400 ms
+		go func() {
+			time.Sleep(400 * time.Millisecond)
+			if fh, err := os.Create(f); err == nil {
+				pprof.WriteHeapProfile(fh)
+				fh.Close()
+			}
+		}()
 	}
 	seed, _ := strconv.ParseInt(args[2], 10, 64)
 	phase, _ := strconv.Atoi(args[3])
